@@ -7,6 +7,7 @@ CONSTANTS
   MaxTog = 4
   MaxActive = 1
   Export = TRUE
+  MergeFull = TRUE
 VIEW View
 INVARIANT InvOpCorrect
 INVARIANT InvProportional
